@@ -556,7 +556,8 @@ impl World {
             | Op::HRead(..)
             | Op::EnvNonUtf8(_)
             | Op::EnvDanglingSymlink(_)
-            | Op::EnvRemoveBehind(_) => Want::Unspec,
+            | Op::EnvRemoveBehind(_)
+            | Op::EnvSpecial(..) => Want::Unspec,
         }
     }
 }
